@@ -564,6 +564,14 @@ def run(pid, tier):
             mc_states += mc.distinct
             mc_trans += mc.states
             mc_runs.append({"spec": spec, "cfg": cfg, "distinct": mc.distinct, "generated": mc.states})
+        if pid == "C02":
+            # non-vacuity of the MDS lemma: with n beyond the field (ESI 16 of GF(2^4) re-uses the evaluation point of
+            # ESI 1: the configuration the open finding of C09 is about) the same model must find a singular selection
+            neg = vlib.run_tlc(os.path.join(vlib.SPEC, "RsCodecModel.tla"), os.path.join(vlib.SPEC, "RsCodec_beyond_field.cfg"),
+                               os.path.join(bdir, "mc_neg"), workers=2, xmx="1g", timeout=600, extra=("-noGenerateSpecTE",))
+            if "Invariant DecodeOK is violated" not in neg.out:
+                raise vlib.Infra("RsCodecModel: n beyond the field does not violate DecodeOK (the lemma would be vacuous):\n" + neg.out[-2000:])
+            mc_runs.append({"spec": "RsCodecModel", "cfg": "RsCodec_beyond_field (must violate DecodeOK)", "distinct": neg.distinct, "generated": neg.states})
         drv = vlib.build_driver(bdir)
         ep = None
         if pid == "C10" or (tier == "thorough" and pid in ("C01", "C02", "C03", "C04")):
